@@ -358,7 +358,7 @@ class Arr:
 
     def __len__(self):
         if not self.shape:
-            raise TypeError('len() of unsized object')
+            raise Raised('TypeError', 'len() of unsized object')
         return self.shape[0]
 
     def __repr__(self):
@@ -483,6 +483,16 @@ class Arr:
         if name == 'mul' and isinstance(o, (int, float, complex)) and not isinstance(o, bool):
             c0, root = self.tags.get('scale', (1, self))
             r.tags['scale'] = (c0 * o, root)
+            if 'opalg' in self.tags:
+                r.tags['opalg'] = self.tags['opalg'].scale(o)
+        if isinstance(o, Arr) and name in ('add', 'sub'):
+            pa, pb = self.tags.get('opalg'), o.tags.get('opalg')
+            za, zb = self.tags.get('const') == 'zeros', o.tags.get('const') == 'zeros'
+            if (pa is not None or za) and (pb is not None or zb):
+                from .opalg import Op
+                pa, pb = pa or Op(), pb or Op()
+                x, y = (pb, pa) if rev else (pa, pb)
+                r.tags['opalg'] = x + y if name == 'add' else x - y
         return r
 
     def __add__(self, o): return self._bin(o, 'add')
@@ -837,7 +847,7 @@ def getitem(a, idx):
     if og is not None:
         return og
     shape, legs, ax = [], [], 0
-    adv = [x for x in idx if isinstance(x, (Arr, list))]
+    adv = [x for x in idx if (isinstance(x, Arr) and x.ndim >= 1) or isinstance(x, list)]
     view = not adv
     sel = []
     for x in idx:
@@ -934,7 +944,7 @@ def setitem(a, idx, v):
             sel.append(('all',) if sz_eq(length, n) else ('range', start, stop))
             if ok is None:
                 CTX.event('store-bounds-unproved', target=a, axis=ax, lo=start, hi=stop, n=n, detail=f'slice {start}:{stop} on axis {ax} of length {n} is not provably in bounds')
-        elif isinstance(x, (Arr, list)):
+        elif (isinstance(x, Arr) and x.ndim >= 1) or isinstance(x, list):
             k = x.shape[0] if isinstance(x, Arr) else len(x)
             sel_shape.append(k); sel.append(('idx', id(x)))
         else:
@@ -1077,6 +1087,11 @@ def tensordot(a, b, axes=2):
     rb = [i for i in range(b.ndim) if i not in ax_b]
     r = Arr([a.shape[i] for i in ra] + [b.shape[i] for i in rb], [a.legs[i] for i in ra] + [b.legs[i] for i in rb], join_dtype(a.dt, b.dt), None, {}, 'tensordot')
     orth_after_contract(r, a, b, ax_a, ax_b, ra, rb)
+    if 'opalg' in a.tags and 'opalg' in b.tags:
+        if not ax_a:
+            r.tags['opalg'] = a.tags['opalg'].outer(b.tags['opalg'])
+        elif a.ndim == 2 and b.ndim == 2 and ax_a == [1] and ax_b == [0]:
+            r.tags['opalg'] = a.tags['opalg'].dot(b.tags['opalg'])
     return r
 
 
